@@ -149,26 +149,36 @@ fn handle_put<R: Read, W: Write>(
     let resp = with_commit_lock(lockdir, || {
         let current = current_hash(&dst);
         match cas_decide(current, expected) {
-            Cas::Commit => {
-                let _ = std::fs::rename(&tmp, &dst);
-                Response::PutResult {
+            // Acknowledge only what happened: the rename can fail (e.g. `dst` is a
+            // directory, or the staging file is gone).
+            Cas::Commit => match std::fs::rename(&tmp, &dst) {
+                Ok(()) => Ok(Response::PutResult {
                     committed: true,
                     current: Some(hash),
-                }
-            }
+                }),
+                Err(e) => Err(e),
+            },
             Cas::Conflict => {
                 // Never overwrite on a stale CAS — land a conflict-copy.
                 let mut cn = dst.as_os_str().to_owned();
                 cn.push(format!(".conflict-{}", super::wire::short_hash(&hash)));
-                let _ = std::fs::rename(&tmp, PathBuf::from(cn));
-                Response::PutResult {
-                    committed: false,
-                    current,
+                match std::fs::rename(&tmp, PathBuf::from(cn)) {
+                    Ok(()) => Ok(Response::PutResult {
+                        committed: false,
+                        current,
+                    }),
+                    Err(e) => Err(e),
                 }
             }
         }
     })?;
-    write_frame(w, &resp)
+    match resp {
+        Ok(resp) => write_frame(w, &resp),
+        Err(e) => {
+            let _ = std::fs::remove_file(&tmp);
+            write_frame(w, &Response::Error(format!("commit failed: {e}")))
+        }
+    }
 }
 
 fn handle_delete<W: Write>(
